@@ -850,7 +850,7 @@ Ltac lit_res :=
   | X : In _ (if ?b then _ else _) |- _ => destruct b
   | X : In _ (match ?x with _ => _ end) |- _ => destruct x
   | X : In _ [] |- _ => destruct X
-  | X : In _ (_ :: _) |- _ => destruct X as [X|X]; [subst; reflexivity|]
+  | X : In _ (_ :: _) |- _ => destruct X as [X|X]; [subst; repeat match goal with |- context [if ?c then _ else _] => destruct c end; reflexivity|]
   end.
 
 Lemma wl_lim_custody_residual : forall a to amt c, In c (wl_lim_clauses a to amt "custody_send") -> residual c = true.
@@ -1080,7 +1080,7 @@ Proof.
       rewrite (proj1 (send_frame _ _ _ _ _ E3 u)), add_mark_frame, (proj1 (send_frame _ _ _ _ _ E1 u)). reflexivity. }
     assert (St : forall u, a_stat (getA (store_pool s3 t (pool_del h p)) u) = a_stat (getA s u)).
     { intros u. rewrite stat_store_pool, (proj2 (send_frame _ _ _ _ _ E3 u)), add_mark_frame, (proj2 (send_frame _ _ _ _ _ E1 u)). reflexivity. }
-    pose proof (released_gone s _ t h p tx _ Hp Hg (pool_of_store_same _ _ _) (pool_get_del_same _ _)) as Rl.
+    pose proof (released_gone s (store_pool s3 t (pool_del h p)) t h p tx (pool_del h p) Hp Hg (pool_of_store_same _ _ _) (pool_get_del_same _ _)) as Rl.
     assert (Pd : paid_without_release s (store_pool s3 t (pool_del h p)) t h = false) by (unfold paid_without_release; rewrite Rl; reflexivity).
     rewrite (voted_cons _ _ _ Mk), Pd, Rl. rewrite !andb_true_r.
     destruct (HL true eq_refl) as [HL1 HL2]. rewrite andb_true_r in HL1, HL2.
@@ -1098,7 +1098,7 @@ Proof.
       * intros st Hs Hw. rewrite Hs, Hw in Eb. apply andb_prop in Eb. destruct Eb as [_ Eb].
         assert (Y : in2 t h (l_conf lg) = true) by exact (I3 t p h tx Hp Hg Eb).
         destruct HL1 as [->|[-> _]]; exact Y.
-    + exact (approve_inv lg lg1 s _ f t h p tx _ I Hp Hg Mk (pool_of_store_same _ _ _) Po St (or_introl eq_refl) HL1).
+    + exact (approve_inv lg lg1 s (store_pool s3 t (pool_del h p)) f t h p tx (pool_del h p) I Hp Hg Mk (pool_of_store_same _ _ _) Po St (or_introl eq_refl) HL1).
   - (* counted, not yet paid out *)
     inversion E; subst s'. clear E.
     set (tx1 := tx_votes tx (t_votes tx + 1)).
@@ -1110,16 +1110,267 @@ Proof.
     assert (St : forall u, a_stat (getA (store_pool (add_mark s1 f t h 1) t (pool_set h tx1 p)) u) = a_stat (getA s u)).
     { intros u. rewrite stat_store_pool, add_mark_frame, (proj2 (send_frame _ _ _ _ _ E1 u)). reflexivity. }
     assert (Rl : released s (store_pool (add_mark s1 f t h 1) t (pool_set h tx1 p)) t h = None).
-    { apply (released_present s _ t h _ tx1 (pool_of_store_same _ _ _)). rewrite pool_get_set, String.eqb_refl. reflexivity. }
+    { apply (released_present s (store_pool (add_mark s1 f t h 1) t (pool_set h tx1 p)) t h (pool_set h tx1 p) tx1 (pool_of_store_same _ _ _)). rewrite pool_get_set, String.eqb_refl. reflexivity. }
     assert (Pd : paid_without_release s (store_pool (add_mark s1 f t h 1) t (pool_set h tx1 p)) t h = false).
-    { apply (paid_reward_only s _ t h p tx rd r0 rr _ Hp Hg Hrw Hq). intros x d. rewrite bal_store_pool, add_mark_frame. apply B1. }
+    { apply (paid_reward_only s (store_pool (add_mark s1 f t h 1) t (pool_set h tx1 p)) t h p tx rd r0 rr (Z.quot r0 (map_len c)) Hp Hg Hrw Hq). intros x d. rewrite bal_store_pool, add_mark_frame. apply B1. }
     rewrite (voted_cons _ _ _ Mk), Pd, Rl. rewrite !andb_true_r.
     destruct (HL true eq_refl) as [HL1 HL2]. rewrite andb_true_r in HL1, HL2.
     set (lg1 := if negb (in3 f t h (l_appr lg) || in3 f t h (l_decl lg)) then lgc else lg) in *.
     simpl fst. simpl snd. split.
     + intros x Hin. apply in_app_or in Hin. destruct Hin as [Hin|Hin]; [exact (HL2 x Hin)|destruct Hin].
-    + exact (approve_inv lg lg1 s _ f t h p tx _ I Hp Hg Mk (pool_of_store_same _ _ _) Po St (or_intror eq_refl) HL1).
+    + exact (approve_inv lg lg1 s (store_pool (add_mark s1 f t h 1) t (pool_set h tx1 p)) f t h p tx (pool_set h tx1 p) I Hp Hg Mk (pool_of_store_same _ _ _) Po St (or_intror eq_refl) HL1).
 Qed.
+Lemma paid_nondec : forall s s' t h, (forall x, nondec s s' x) -> paid_without_release s s' t h = false.
+Proof.
+  intros s s' t h N. unfold paid_without_release. destruct (released s s' t h); [reflexivity|].
+  apply Bool.not_true_is_false. intros E. apply existsb_exists in E. destruct E as (d & _ & E).
+  destruct (pending s t h) as [tx|].
+  - specialize (N (t_from tx) d). destruct (t_from tx =? t); destruct (t_rew tx) as [|[rd r] rr];
+      repeat match type of E with context [if ?c then _ else _] => destruct c end; lia.
+  - specialize (N t d). repeat match type of E with context [if ?c then _ else _] => destruct c end; lia.
+Qed.
+
+Lemma decline_noop_sound : forall n lg s f t hraw,
+  Inv lg s -> is_custodian (getA s t) f = true -> sound_step n lg s s (ODecline f t hraw).
+Proof.
+  intros n lg s f t hraw I Hisc. unfold sound_step, op_clauses. cbv zeta.
+  rewrite Hisc, voted_refl, !andb_false_r, paid_refl, released_same_pool by reflexivity. simpl. split; [intros x []|exact I].
+Qed.
+
+Lemma sound_decline : forall n lg s f t hraw s',
+  Inv lg s -> handle v s (ODecline f t hraw) = Ok s' -> sound_step n lg s s' (ODecline f t hraw).
+Proof.
+  intros n lg s f t hraw s' I E. pose proof I as (I1 & I2 & I3 & I4).
+  simpl in E. unfold voter_ok, mark_key in E. rewrite Hco, Hlo in E. unfold bind in E.
+  destruct (a_cust (getA s t)) as [c|] eqn:Hc; [|discriminate].
+  destruct (bool_at f c) eqn:Hb; [|discriminate]. simpl negb in E. cbv iota in E.
+  pose proof (bool_at_is_custodian _ _ _ Hc Hb) as Hisc.
+  destruct (mark_get f t (to_lower hraw) (marks s)) eqn:Hm; [inversion E; subst; apply decline_noop_sound; assumption|].
+  destruct (a_set (getA s t)) as [st|]; [|inversion E; subst; apply decline_noop_sound; assumption].
+  destruct (negb (s_en st)); [inversion E; subst; apply decline_noop_sound; assumption|].
+  destruct (map_len c =? 0) eqn:En; [inversion E; subst; apply decline_noop_sound; assumption|].
+  destruct (a_pool (getA s t)) as [p|] eqn:Hp; [|inversion E; subst; apply decline_noop_sound; assumption].
+  destruct (pool_get (to_lower hraw) p) as [tx|] eqn:Hg; [|inversion E; subst; apply decline_noop_sound; assumption].
+  destruct (t_rew tx) as [|[rd r0] rr] eqn:Hrw; [discriminate|].
+  destruct (Z.quot r0 (map_len c) <? 0) eqn:Eq; [discriminate|].
+  assert (Hn : 0 < map_len c) by (clear - En; unfold map_len in *; lia).
+  assert (Hq : 0 <= Z.quot r0 (map_len c) <= Z.max 0 r0) by (split; [clear - Eq; lia|apply quot_bound; [exact Hn|clear - Eq; lia]]).
+  pose proof (send_reward_bound _ _ _ _ _ _ _ E Hq) as B1.
+  set (h := to_lower hraw) in *.
+  assert (Mk : marks s' = (f, t, h, -1) :: marks s) by (rewrite (send_marks _ _ _ _ _ E); reflexivity).
+  assert (Po : forall u, pool_of s' u = pool_of s u).
+  { intros u. unfold pool_of. rewrite (proj1 (send_frame _ _ _ _ _ E u)). reflexivity. }
+  assert (St : forall u, a_stat (getA s' u) = a_stat (getA s u)).
+  { intros u. rewrite (proj2 (send_frame _ _ _ _ _ E u)). reflexivity. }
+  assert (Pd : paid_without_release s s' t h = false).
+  { apply (paid_reward_only s s' t h p tx rd r0 rr (Z.quot r0 (map_len c)) Hp Hg Hrw Hq). intros x d. apply B1. }
+  unfold sound_step, op_clauses. cbv zeta. fold h. rewrite Hisc. simpl negb. simpl andb.
+  rewrite (voted_cons _ _ _ Mk), Pd, (released_same_pool s s' t h (Po t)). rewrite !andb_true_r. simpl app.
+  destruct (in3 f t h (l_appr lg) || in3 f t h (l_decl lg)) eqn:Hd; simpl negb; cbv iota.
+  - destruct (rotated lg t) eqn:Hr; [|exfalso; exact (I1 _ _ _ Hr Hd Hm)].
+    simpl fst. simpl snd. split; [intros x [<-|[]]; reflexivity|].
+    exact (Inv_same_pools lg lg s s' I (log_le_refl _) (log_marks_cons _ _ _ _ I1 Mk) Po St).
+  - simpl fst. simpl snd. split; [intros x []|].
+    exact (Inv_same_pools lg _ s s' I (log_le_decl _ _) (log_marks_decl _ _ _ _ _ _ _ I1 Mk) Po St).
+Qed.
+
+Lemma sound_confirm : forall n lg s f t hraw pw ph s',
+  Inv lg s -> handle v s (OConfirm f t hraw pw ph) = Ok s' -> sound_step n lg s s' (OConfirm f t hraw pw ph).
+Proof.
+  intros n lg s f t hraw pw ph s' I E. pose proof I as (I1 & I2 & I3 & I4).
+  simpl in E. rewrite Hpw in E. unfold bind, rec_missing in E.
+  destruct (a_pool (getA s t)) as [p|] eqn:Hp; [|repeat (dmatch_in E; try discriminate)].
+  destruct (pool_get (to_lower hraw) p) as [tx|] eqn:Hg; [|simpl in E; repeat (dmatch_in E; try discriminate)].
+  simpl andb in E. destruct (String.eqb pw (t_pw tx)) eqn:Epw; simpl negb in E; cbv iota in E; [|discriminate].
+  simpl option_map in E.
+  set (h := to_lower hraw) in *.
+  set (lg1 := mkLog (l_appr lg) (l_decl lg) ((t, h) :: l_conf lg) (l_rot lg)).
+  set (r := tx_conf tx true) in *.
+  set (kind := if rotated lg t then "confirm_rotated"%string else "confirm"%string).
+  unfold sound_step, op_clauses. cbv zeta. fold h. unfold pending. rewrite Hp, Hg, Epw. simpl orb. cbv iota. fold lg1. fold kind.
+  match type of E with (match ?a with _ => _ end) = _ => destruct a as [allowC| |] eqn:EC; try discriminate end.
+  match type of E with (match ?a with _ => _ end) = _ => destruct a as [allowP| |] eqn:EP; try discriminate end.
+  assert (Vt : forall h' y, pool_get h' p = Some y -> rotated lg1 t = false -> 0 <= t_votes y <= count_appr t h' (l_appr lg1)).
+  { intros h' y Qy R. exact (I2 t p h' y R Hp Qy). }
+  assert (Cf : forall h' y, pool_get h' p = Some y -> t_conf y = true -> in2 t h' (l_conf lg1) = true).
+  { intros h' y Qy Cy. unfold lg1; simpl l_conf. apply in2_cons. exact (I3 t p h' y Hp Qy Cy). }
+  destruct (allowC && allowP) eqn:Eb.
+  - (* paid out *)
+    change (t_from r) with (t_from tx) in E. change (t_to r) with (t_to tx) in E. change (t_amt r) with (t_amt tx) in E.
+    destruct (send s (t_from tx) (t_to tx) (t_amt tx)) as [s1| |] eqn:E1; try discriminate.
+    inversion E; subst s'. clear E.
+    assert (Mk : marks (store_pool s1 t (pool_del h p)) = marks s).
+    { rewrite store_pool_marks. exact (send_marks _ _ _ _ _ E1). }
+    assert (Po : forall u, u <> t -> pool_of (store_pool s1 t (pool_del h p)) u = pool_of s u).
+    { intros u Hu. rewrite pool_of_store_other by assumption. unfold pool_of. rewrite (proj1 (send_frame _ _ _ _ _ E1 u)). reflexivity. }
+    assert (St : forall u, a_stat (getA (store_pool s1 t (pool_del h p)) u) = a_stat (getA s u)).
+    { intros u. rewrite stat_store_pool, (proj2 (send_frame _ _ _ _ _ E1 u)). reflexivity. }
+    pose proof (released_gone s (store_pool s1 t (pool_del h p)) t h p tx (pool_del h p) Hp Hg (pool_of_store_same _ _ _) (pool_get_del_same _ _)) as Rl.
+    assert (Pd : paid_without_release s (store_pool s1 t (pool_del h p)) t h = false) by (unfold paid_without_release; rewrite Rl; reflexivity).
+    rewrite Pd, Rl. simpl fst. simpl snd. split.
+    + intros x Hin. simpl in Hin.
+      apply (release_clauses_ok lg1 s t h tx (t_votes tx) kind); [| |exact Hin].
+      * unfold kind. destruct (rotated lg t) eqn:Hr; [right; right; reflexivity|left].
+        destruct (I2 t p h tx Hr Hp Hg) as [Hv0 Hv1].
+        split; [exact Hr|]. split; [exact Hv0|]. split; [exact Hv1|].
+        intros st Hs He Hnc. rewrite Hs, He in EC.
+        destruct (a_cust (getA s t)) as [c|] eqn:Hc; [|discriminate].
+        pose proof (n_cust_le_map_len _ _ Hc) as Hle.
+        assert (X : 0 <? map_len c = true) by (apply Z.ltb_lt; clear - Hle Hnc; lia). rewrite X in EC.
+        inversion EC; subst allowC. apply andb_prop in Eb. destruct Eb as [Eb _]. apply Z.leb_le in Eb.
+        exists c. split; [reflexivity|]. split; [apply Z.ltb_lt; exact X|exact Eb].
+      * intros st Hs Hw. unfold lg1. simpl l_conf. apply in2_cons_same.
+    + apply (Inv_pool_update lg lg1 s _ t (pool_del h p) I (log_le_conf _ _) (log_marks_same lg1 s _ I1 Mk)
+               (pool_of_store_same _ _ _) Po); [|exact St].
+      intros h' tx' Q. apply pool_get_del_some in Q. split; [exact (Vt h' tx' Q)|exact (Cf h' tx' Q)].
+  - (* confirmed, not yet paid out *)
+    inversion E; subst s'. clear E.
+    assert (Po : forall u, u <> t -> pool_of (store_pool s t (pool_set h r p)) u = pool_of s u).
+    { intros u Hu. rewrite pool_of_store_other by assumption. reflexivity. }
+    assert (Rl : released s (store_pool s t (pool_set h r p)) t h = None).
+    { apply (released_present s (store_pool s t (pool_set h r p)) t h (pool_set h r p) r (pool_of_store_same _ _ _)). rewrite pool_get_set, String.eqb_refl. reflexivity. }
+    assert (Pd : paid_without_release s (store_pool s t (pool_set h r p)) t h = false).
+    { apply paid_nondec. intros x d. rewrite bal_store_pool. lia. }
+    rewrite Pd, Rl. simpl fst. simpl snd. split; [intros x []|].
+    apply (Inv_pool_update lg lg1 s _ t (pool_set h r p) I (log_le_conf _ _) (log_marks_same lg1 s _ I1 (store_pool_marks _ _ _))
+             (pool_of_store_same _ _ _) Po); [|intros u; apply stat_store_pool].
+    intros h' tx' Q. rewrite pool_get_set in Q. destruct (String.eqb h' h) eqn:Eh.
+    + apply String.eqb_eq in Eh; subst h'. inversion Q; subst tx'. unfold r, tx_conf. cbn [t_votes t_conf].
+      split; [exact (Vt h tx Hg)|]. intros _. unfold lg1. simpl l_conf. apply in2_cons_same.
+    + split; [exact (Vt h' tx' Q)|exact (Cf h' tx' Q)].
+Qed.
+
+Lemma sound_send : forall n lg s sg to amt pw rew h s',
+  Inv lg s -> handle v s (OSend sg to amt pw rew h) = Ok s' -> sound_step n lg s s' (OSend sg to amt pw rew h).
+Proof.
+  intros n lg s sg to amt pw rew h s' I E. pose proof I as (I1 & I2 & I3 & I4).
+  simpl in E. unfold bind in E. destruct (negb (coins_ok amt)); [discriminate|].
+  match type of E with (match ?a with _ => _ end) = _ => destruct a as [pooled| |] eqn:EP; try discriminate end.
+  unfold sound_step, op_clauses. cbv zeta.
+  destruct pooled.
+  - (* pooled: nothing moves *)
+    inversion E; subst s'. clear E.
+    rewrite (dec_nondec s _ sg) by (apply nondec_setA; [apply nondec_refl|reflexivity]).
+    simpl fst. simpl snd. split; [intros x []|].
+    apply (Inv_pool_update lg lg s (setA s sg (with_pool (getA s sg) (Some [(h, mkTx sg to amt pw rew 0 false)]))) sg
+             [(h, mkTx sg to amt pw rew 0 false)] I (log_le_refl _)
+             (log_marks_same lg s (setA s sg (with_pool (getA s sg) (Some [(h, mkTx sg to amt pw rew 0 false)]))) I1 eq_refl)
+             (pool_of_setA_same _ _ _) (fun u Hu => pool_of_setA_other _ _ _ _ Hu)).
+    + intros h' tx' Q. simpl in Q. destruct (String.eqb h' h); inversion Q; subst tx'. simpl.
+      split; [intros _; split; [lia|apply count_appr_nonneg]|discriminate].
+    + intros u. rewrite getA_setA. destruct (u =? sg) eqn:Eu; auto. assert (u = sg) by lia; subst. reflexivity.
+  - (* paid out directly: only without custodians and without password *)
+    assert (G : guarded (getA s sg) && (0 <? n_cust (getA s sg)) = false /\ flag s_pwd (getA s sg) = false).
+    { unfold guarded, flag. destruct (a_set (getA s sg)) as [st|]; [|auto].
+      destruct (s_en st).
+      - destruct (a_cust (getA s sg)) as [c|] eqn:Hc; [|discriminate]. injection EP as EP'.
+        apply orb_false_elim in EP'. destruct EP' as [X Y]. apply map_len_zero in X. subst c.
+        rewrite (n_cust_nil _ Hc). simpl. split; [reflexivity|exact Y].
+      - injection EP as EP'. simpl. split; [reflexivity|exact EP']. }
+    destruct G as [G1 G2].
+    assert (Po : forall u, pool_of s' u = pool_of s u).
+    { intros u. unfold pool_of. rewrite (proj1 (send_frame _ _ _ _ _ E u)). reflexivity. }
+    assert (St : forall u, a_stat (getA s' u) = a_stat (getA s u)).
+    { intros u. rewrite (proj2 (send_frame _ _ _ _ _ E u)). reflexivity. }
+    split.
+    + destruct (dec (getA s sg) (getA s' sg)); simpl fst; [|intros x []].
+      rewrite G1, G2. simpl app. intros x Hin. eapply wl_lim_custody_residual; exact Hin.
+    + destruct (dec (getA s sg) (getA s' sg)); simpl snd;
+        exact (Inv_same_pools lg lg s s' I (log_le_refl _) (log_marks_same lg s s' I1 (send_marks _ _ _ _ _ E)) Po St).
+Qed.
+
+Lemma sound_multi : forall n lg s sg to amt s',
+  Inv lg s -> handle v s (OMulti sg to amt) = Ok s' -> sound_step n lg s s' (OMulti sg to amt).
+Proof.
+  intros n lg s sg to amt s' I E. pose proof I as (I1 & I2 & I3 & I4).
+  simpl in E. destruct (negb (coins_ok amt)); [discriminate|].
+  assert (Po : forall u, pool_of s' u = pool_of s u).
+  { intros u. unfold pool_of. rewrite (proj1 (send_frame _ _ _ _ _ E u)). reflexivity. }
+  assert (St : forall u, a_stat (getA s' u) = a_stat (getA s u)).
+  { intros u. rewrite (proj2 (send_frame _ _ _ _ _ E u)). reflexivity. }
+  unfold sound_step, op_clauses. cbv zeta. split.
+  - destruct (dec (getA s sg) (getA s' sg)); simpl fst; [|intros x []].
+    intros x Hin. eapply path_multisend_residual; exact Hin.
+  - destruct (dec (getA s sg) (getA s' sg)); simpl snd;
+      exact (Inv_same_pools lg lg s s' I (log_le_refl _) (log_marks_same lg s s' I1 (send_marks _ _ _ _ _ E)) Po St).
+Qed.
+
+(* the nine settings messages touch neither pools, balances, limit statuses nor the vote store *)
+Ltac fr :=
+  first [ apply frame_pbs_setA; first [reflexivity | match goal with w : lst |- _ => destruct w; reflexivity end]
+        | eapply frame_pbs_trans; [eapply set_key_frame; eassumption
+                                  | apply frame_pbs_setA; first [reflexivity | match goal with w : lst |- _ => destruct w; reflexivity end]] ].
+Definition settings_op (o : op) : Prop :=
+  match o with OSend _ _ _ _ _ _ | OApprove _ _ _ | ODecline _ _ _ | OConfirm _ _ _ _ _ | OBank _ _ _ _ | OMulti _ _ _ | ORotate _ _ _ => False | _ => True end.
+Lemma handle_quiet : forall s o s', handle v s o = Ok s' -> settings_op o -> frame_pbs s s' /\ marks s' = marks s.
+Proof.
+  intros s o s' E Hq.
+  destruct o; try contradiction; simpl in E; unfold bind in E;
+    repeat (dmatch_in E; try discriminate); inversion E; subst;
+    (split; [fr | simpl; try reflexivity; try (eapply set_key_marks; eassumption)]).
+Qed.
+
+Lemma sound_quiet : forall n lg s o s', Inv lg s -> handle v s o = Ok s' -> settings_op o -> sound_step n lg s s' o.
+Proof.
+  intros n lg s o s' I E Hq. pose proof I as (I1 & I2 & I3 & I4).
+  destruct (handle_quiet _ _ _ E Hq) as [F M].
+  assert (X : op_clauses n lg s s s' o = ([], lg)) by (destruct o; try contradiction; reflexivity).
+  unfold sound_step. rewrite X. simpl. split; [intros x []|].
+  apply (Inv_same_pools lg lg s s' I (log_le_refl _) (log_marks_same lg s s' I1 M)).
+  - intros u. specialize (F u). unfold pbs in F. injection F as F1 F2 F3. unfold pool_of. exact F1.
+  - intros u. specialize (F u). unfold pbs in F. injection F as F1 F2 F3. exact F3.
+Qed.
+
+Lemma sound_bank : forall n lg s sg to amt now s',
+  Inv lg s -> step v H minrew s (OBank sg to amt now) = Ok s' -> sound_step n lg s s' (OBank sg to amt now).
+Proof.
+  intros n lg s sg to amt now s' I E. pose proof I as (I1 & I2 & I3 & I4).
+  destruct (step_inv _ _ _ _ _ _ E) as (s1 & Ea & Eh).
+  simpl in Eh. destruct (negb (coins_ok amt)) eqn:Eok; [discriminate|]. apply negb_false_iff in Eok.
+  (* the decorator *)
+  unfold Custody.ante in Ea. cbv zeta in Ea. simpl signer in Ea.
+  match type of Ea with bind ?X _ = _ => destruct X; simpl in Ea; try discriminate end.
+  destruct (ante_bank v (getA s sg) to amt now) as [r| |] eqn:Eb; simpl in Ea; try discriminate.
+  pose proof (ante_bank_ok _ _ _ _ _ _ Eb) as A.
+  assert (Key : path_clauses (getA s sg) to amt "bank_send" = [] /\ stat_inv s1 /\ marks s1 = marks s /\ (forall u, pool_of s1 u = pool_of s u)).
+  { unfold path_clauses, wl_lim_clauses, guarded, flag.
+    destruct (a_set (getA s sg)) as [st|] eqn:Hs.
+    2:{ subst r. inversion Ea; subst s1. repeat split; auto. }
+    destruct A as (A1 & A2 & A3).
+    assert (G : s_en st && (0 <? n_cust (getA s sg)) = false).
+    { destruct (s_en st); [|reflexivity]. rewrite (n_cust_nil _ (A1 eq_refl)). reflexivity. }
+    rewrite G. simpl app.
+    assert (W : (if s_wl st then match a_wl (getA s sg) with Some w => if bool_at to w then [] else [cl "whitelist" "bank_send"] | None => [] end else []) = []).
+    { destruct (s_wl st); [|reflexivity]. destruct (a_wl (getA s sg)) as [w|] eqn:Hl; [|reflexivity]. rewrite (A2 eq_refl w eq_refl). reflexivity. }
+    rewrite W. simpl app.
+    destruct (s_lim st).
+    - destruct A3 as (Hv & st' & Hr & Hf). subst r. inversion Ea; subst s1. clear Ea.
+      assert (S1 : forall d a0 tm, alist_get d (match a_stat (getA s sg) with Some x => x | None => [] end) = Some (a0, tm) -> 0 <= a0).
+      { intros d a0 tm Q. destruct (a_stat (getA s sg)) as [x|] eqn:Hx; [exact (I4 sg x d a0 tm Hx Q)|discriminate]. }
+      assert (S2 : forall c, In c amt -> 0 <= snd c) by (intros c Hc; exact (coins_ok_nonneg amt c Eok Hc)).
+      destruct (limits_fold_ok _ _ _ _ _ Hf S1 S2) as [Hover Hst'].
+      split; [|split; [|split]].
+      + destruct (a_lim (getA s sg)) as [l|]; [|reflexivity]. rewrite Hover. reflexivity.
+      + intros x stx d a0 tm Q1 Q2. rewrite getA_setA in Q1. destruct (x =? sg) eqn:Ex.
+        * simpl in Q1. inversion Q1; subst stx. exact (Hst' d a0 tm Q2).
+        * exact (I4 x stx d a0 tm Q1 Q2).
+      + reflexivity.
+      + intros u. unfold pool_of. rewrite getA_setA. destruct (u =? sg) eqn:Eu; auto. assert (u = sg) by lia; subst. reflexivity.
+    - subst r. inversion Ea; subst s1. repeat split; auto. }
+  destruct Key as (K1 & K2 & K3 & K4).
+  assert (Po : forall u, pool_of s' u = pool_of s u).
+  { intros u. rewrite <- K4. unfold pool_of. rewrite (proj1 (send_frame _ _ _ _ _ Eh u)). reflexivity. }
+  unfold sound_step, op_clauses. cbv zeta. rewrite K1. split.
+  - destruct (dec (getA s sg) (getA s' sg)); simpl fst; intros x [].
+  - assert (V : Inv lg s').
+    { split; [exact (log_marks_same lg s s' I1 ltac:(rewrite (send_marks _ _ _ _ _ Eh); exact K3))|].
+      split; [|split].
+      - intros u q h tx R Q1 Q2. rewrite Po in Q1. exact (I2 u q h tx R Q1 Q2).
+      - intros u q h tx Q1 Q2 Q3. rewrite Po in Q1. exact (I3 u q h tx Q1 Q2 Q3).
+      - intros x st d a0 tm Q1 Q2. rewrite (proj2 (send_frame _ _ _ _ _ Eh x)) in Q1. exact (K2 x st d a0 tm Q1 Q2). }
+    destruct (dec (getA s sg) (getA s' sg)); simpl snd; exact V.
+Qed.
+
 End Sound.
 
 (* ================================================================ 8. the full-strength statements, per variant *)
